@@ -1,12 +1,14 @@
 (* C09 — copy duplicates and move_p relocates a subtree without loss or collateral change.
-   PARTIAL: the clauses of the statement are evaluated on the real code's pre/post snapshots for
-   every tree of the bounded namespace and every pair of paths (tools/frames.py), and the mirrors of
-   _copy / move_p agree with the code state-for-state; proved here are the parts that do not need
-   the loop invariants of the two worklists: move_p and copy never panic, and move_p validates
-   everything before its first mutation (an error from the validation leaves the state untouched). *)
+   move_p is proved completely (Memfs/WfMove.v): for every well-formed state and every source / destination, a
+   successful move makes the source disappear with everything below it, makes the destination the former source
+   subtree (same relative paths, kinds, modes, owners, child lists, byte contents; a link keeps the target it
+   stores), changes nothing else apart from the two parents' name lists, and a failed validation changes
+   nothing at all. PARTIAL for copy: its clauses are evaluated on the real code's pre/post snapshots for every
+   tree of the bounded namespace and every pair of paths (tools/frames.py), and the mirror of _copy agrees with
+   the code state-for-state; proved are no-panic and well-formedness preservation (C03). *)
 From stdpp Require Import gmap.
 From Coq Require Import NArith.
-From RV Require Import Base.Str Path.Helpers Path.Expand Memfs.State Memfs.Ops Memfs.Walk Memfs.WalkOps Memfs.Step Memfs.ContentFacts Memfs.MoveFacts.
+From RV Require Import Base.Str Path.Helpers Path.Expand Memfs.State Memfs.Ops Memfs.Walk Memfs.WalkOps Memfs.Step Memfs.ContentFacts Memfs.MoveFacts Memfs.Wf Memfs.WfMove.
 
 Theorem C09_move_validation_frame : forall env m s d e m',
   move_validation env m s d = inr e -> move_op env m s d = Done (m', inr e) -> m' = m.
@@ -33,3 +35,40 @@ Print Assumptions C09_move_validation_complete.
 Theorem C09_no_panic : forall env m s d o, step env m (OMoveP s d) <> Panic /\ step env m (OCopy s d o) <> Panic.
 Proof. exact (fun env m s d o => conj (step_no_panic env m (OMoveP s d)) (step_no_panic env m (OCopy s d o))). Qed.
 Print Assumptions C09_no_panic.
+
+(* a successful move_p: the source disappears, with everything below it *)
+Theorem C09_move_source_gone : forall env m m' s d sb db sd dd r, WF m ->
+  move_validate env m s d = MvGo (sb :: sd) (db :: dd) -> move_op env m s d = Done (m', r) ->
+  forall k, (sb :: sd) `suffix_of` k -> m_ents m' !! k = None /\ m_data m' !! k = None.
+Proof. exact move_source_gone. Qed.
+Print Assumptions C09_move_source_gone.
+
+(* ... the destination is the former source subtree, entry for entry and byte for byte *)
+Theorem C09_move_destination : forall env m m' s d sb db sd dd r, WF m ->
+  move_validate env m s d = MvGo (sb :: sd) (db :: dd) -> move_op env m s d = Done (m', r) ->
+  forall j, m_ents m' !! (j ++ db :: dd) = (fun e => move_entry e (j ++ db :: dd)) <$> (m_ents m !! (j ++ sb :: sd)) /\
+            m_data m' !! (j ++ db :: dd) = m_data m !! (j ++ sb :: sd).
+Proof. exact move_destination. Qed.
+Print Assumptions C09_move_destination.
+
+(* ... where a moved entry differs from the original only in the path it reports (and, for a link, in what its stored
+   relative target resolves to from the new place) *)
+Theorem C09_move_entry_shape : forall se dp,
+  e_path (move_entry se dp) = dp /\ e_dir (move_entry se dp) = e_dir se /\ e_file (move_entry se dp) = e_file se /\
+  e_link (move_entry se dp) = e_link se /\ e_files (move_entry se dp) = e_files se.
+Proof. exact move_entry_shape. Qed.
+Print Assumptions C09_move_entry_shape.
+
+(* ... and nothing else changes: no data anywhere else, no entry other than the two parents (whose name lists change) *)
+Theorem C09_move_frame : forall env m m' s d sb db sd dd r, WF m ->
+  move_validate env m s d = MvGo (sb :: sd) (db :: dd) -> move_op env m s d = Done (m', r) ->
+  forall k, ~ (sb :: sd) `suffix_of` k -> ~ (db :: dd) `suffix_of` k ->
+  m_data m' !! k = m_data m !! k /\ (k <> sd -> k <> dd -> m_ents m' !! k = m_ents m !! k).
+Proof. exact move_frame. Qed.
+Print Assumptions C09_move_frame.
+
+Theorem C09_move_cwd_root : forall env m m' s d sb db sd dd r, WF m ->
+  move_validate env m s d = MvGo (sb :: sd) (db :: dd) -> move_op env m s d = Done (m', r) ->
+  m_cwd m' = m_cwd m /\ m_root m' = m_root m /\ r = inl tt.
+Proof. exact move_cwd_root. Qed.
+Print Assumptions C09_move_cwd_root.
